@@ -1,4 +1,6 @@
-"""C16 address sets (two clauses): H1 range vector mutated only inside coverage, H3 word -> documented set operation."""
+"""C16 address sets: H7 the set algebra of coverage.cc and of every address-set word, decided by evaluating their source on the
+endpoint-order domain; H1 range vector mutated only inside coverage, H3 word -> documented set operation.
+(The earlier shape rules H4-H6 for find/intersect/remove are retired: H7 decides the same functions semantically.)"""
 import r_aset
 from common import apply, maybe_mutants
 
@@ -6,14 +8,18 @@ from common import apply, maybe_mutants
 def run(prog, rep, tier):
     rep.clause = ("H1: outside coverage's own member functions every access to the ranges of an address set (coverage::at etc., 16 sites) is a read: "
                   "never assigned, incremented or bound to a non-const reference, so the canonical form can only be broken inside coverage.cc; "
-                  "H3: each address-set word is registered with exactly its overload classes and each class calls exactly the documented set "
-                  "operation (add->add/add_all, sub->remove/remove_all, overlap->intersect+add_all, ?contains->is_covered, ?overlaps->is_overlap, "
-                  "?empty->empty).")
-    rep.not_decided = ("that coverage::add/remove/intersect keep the vector sorted, disjoint and non-adjacent, arithmetic near 2^64, and the values of "
-                       "low/high/length/range (value reasoning inside coverage.cc).")
+                  "H3: each address-set word (add, sub, overlap, ?contains, ?overlaps, ?empty, low, high, length, range, elem, relem) is registered "
+                  "with exactly its documented overload classes.")
+    rep.clause += (" H7: coverage::add/remove/is_covered/is_overlap/intersect and the words add, sub, overlap, ?contains, ?overlaps, ?empty, length, "
+                   "low, high, range, elem, relem, aset and value_aset::cmp, interpreted from their source, agree with the mathematical set "
+                   "model (union, difference, intersection, subset, cardinality, min, sup, maximal runs ascending, members ascending/descending, "
+                   "numbering from 0, equality iff same set) and keep the canonical form, on every set and operand interval over two breakpoint "
+                   "lists (contiguous small addresses; addresses spread over the 64-bit range with gaps above 2^63). coverage orders addresses "
+                   "only through comparisons of run endpoints, so these lists realise every endpoint order type of sets with up to 3 runs and one "
+                   "operand interval (binary words: pairs of sets over the contiguous list).")
+    rep.not_decided = ("sets with more runs than the breakpoint lists realise (4+), the textual rendering of a set, and the conversion of constants "
+                       "to addresses (addressify: warnings for negative / non-arithmetic constants).")
+    apply(rep, "H7", "set algebra and canonical form of coverage and of every address-set word (source evaluation on the endpoint-order domain)", r_aset.h7(prog, tier), 20)
     apply(rep, "H1", "ranges are written only inside coverage", r_aset.h1(prog), 15)
-    apply(rep, "H3", "words call the documented set operation", r_aset.h3(prog), 20)
-    apply(rep, "H5", "every piece of an intersection is clipped by the stored range and by the queried range", r_aset.h5(prog), 2)
-    apply(rep, "H6", "remove stops early only in the hole case", r_aset.h6(prog), 1)
-    apply(rep, "H4", "addresses are ordered by comparison, never by the sign of a difference", r_aset.h4(prog), 1)
+    apply(rep, "H3", "words are registered with their documented overload classes", r_aset.h3(prog), 12)
     maybe_mutants("C16", rep, tier)
